@@ -2,23 +2,27 @@ import XalanModel.C01.PendingProofs
 import XalanModel.C01.VariablesProofs
 import XalanModel.C01.WalkerProofs
 import XalanModel.C01.CoreProofs
+import XalanModel.C01.CoreSpecProofs
+import XalanModel.C01.CoreCompile
 /-!
 # C01 — the transformation result is the tree XSLT 1.0 defines
 
 Property theorems only.  The full statement — *for every error-free stylesheet of the core language
 and every document, the engine's result is `Spec.transform`* — is **not** proved: no Lean model of the
 whole of `XSLT/*.cpp` exists, so that statement is decided by the correspondence run only (real
-`XalanTransformer` vs `XalanModel.C01.transform`).  What is proved, for all inputs, are the three
-mechanisms of the engine on which every instruction relies (DESIGN.md §5 C01):
+`XalanTransformer` vs `XalanModel.C01.transform`).  What is proved, for all inputs:
 
+* the iterative instruction walker (`Walker.lean`, mirrors `ElemTemplateElement::execute` and the
+  `startElement/endElement/getInvoker/getNextChildElemToExecute` overrides): `walker_eq_recursion`, `walker_restores_stack`;
+* the engine with data (`Core.lean`: walker + current-node / node-list stacks + pending start tag):
+  `core_refines_spec_partial` (any oracle: engine model = recursive instantiation), `core_refines_spec` and
+  `core_refines_spec_total` (oracle instantiated with `Spec.eval`, program produced by the proved compiler
+  `CoreSpec.compile`: engine model = `Spec.transform`, on the fragment `CoreSpec.inFragment`);
+* the variables stack (`Variables.lean`, mirrors `VariablesStack.cpp`): `variables_lexical`, `variables_lexical_params`,
+  `variables_lookup_pure`, `variables_balanced`, and the counterexample for parameter activation across templates;
 * the pending start tag (`Pending.lean`, mirrors `XSLTEngineImpl::startElement/flushPending/
   addResultAttribute/characters/endElement`): `pending_refines_spec`, `pending_wellformed`,
-  and the counterexample for the unguarded attribute path;
-* the variables stack (`Variables.lean`, mirrors `VariablesStack.cpp`): `variables_lexical`,
-  `variables_balanced`, and the counterexample for parameter activation across templates;
-* the iterative instruction walker (`Walker.lean`, mirrors `ElemTemplateElement::execute` and the
-  `startElement/endElement/getInvoker/getNextChildElemToExecute` overrides of blocks and
-  `xsl:call-template`, `xsl:for-each`, `xsl:apply-templates`): `walker_eq_recursion`, `walker_restores_stack`.
+  and the counterexamples for the unguarded attribute path and the zero-length text.
 -/
 namespace XalanModel.Props.C01
 open XalanModel.C01 XalanModel.C01.Pending XalanModel.C01.VStack
@@ -316,5 +320,50 @@ example :
     (Core.instRun P O 9 0 (0, 1, 1)).map List.length = some 8 := by
   simp [Core.instRun, Core.inst, Core.instKids, Core.instNodes, Core.instTmpls, Core.lookup, Core.child, Core.Node.get,
     Core.Node.kind, Core.Node.kids, Core.endOut]
+
+open XalanModel.C01.CoreSpec in
+/-- **The engine model yields the specification's result, with no abstract oracle** (fragment).  `P` with the
+annotation `I` and layout `L` represents the stylesheet `ss` (`Represents`: every instruction of every template sits
+at its address with the right kind; the built-in rules are extra templates); the oracle is `oracleOf ss d L I`, whose
+every answer is `Spec.eval` / `chooseTemplateIdx` / `toStr` itself.  Then whatever tree `Spec.transform` defines, the
+iterative engine model `Core.run` (invoker stack, walker, pending start tag) produces exactly that tree.
+Fragment: literal text, value-of, literal result elements without attributes, if, choose, for-each and
+apply-templates without sort keys or parameters, call-template without parameters, all built-in rules; no
+variables, keys, strip-space, global variables (those are compared with the real engine, not proved).
+`exRepresents` shows the hypothesis holds for a concrete stylesheet and every document. -/
+theorem core_refines_spec (P : Core.Prog) (I : Core.Addr → Info) (L : Layout) (ss : Stylesheet) (d : Doc)
+    (hR : Represents P I L ss d) (hstrip : ss.stripSpace = []) (hglob : ss.globals = []) (hm : none ∈ L.modes)
+    (fuel : Nat) (tr : List REv) (h : transform ss d fuel = some tr) :
+    ∃ n, Core.run P (oracleOf ss d L I) n (tmplFor ss d L none 0) (0, 1, 1) = some tr := by
+  obtain ⟨g, tr0, h0, ht⟩ := transform_eq_instRun P I L ss d hR hstrip hglob hm fuel tr h
+  obtain ⟨n, hn⟩ := core_refines_spec_partial P _ (fun _ _ => Core.plain_nil) g _ _ tr0 h0
+  exact ⟨n, ht ▸ hn⟩
+
+open XalanModel.C01.CoreSpec in
+/-- the theorem applies: for the stylesheet `exSheet` and every document -/
+example (d : Doc) (fuel : Nat) (tr : List REv) (h : transform exSheet d fuel = some tr) :
+    ∃ n, Core.run exProg (oracleOf exSheet d exLayout exInfo) n (tmplFor exSheet d exLayout none 0) (0, 1, 1) = some tr :=
+  core_refines_spec _ _ _ _ d (exRepresents d) rfl rfl (by simp [exLayout]) fuel tr h
+
+open XalanModel.C01.CoreSpec in
+/-- **`core_refines_spec` with nothing left to assume about the program**: `compile` is a total function from the
+specification's stylesheets to Core programs, `infoOf` / `layoutOf` the annotation and layout it comes with, and
+`inFragment` a decidable test (`CoreCompile.lean`).  For *every* stylesheet that passes the test and every document:
+whatever tree `Spec.transform` defines, the iterative engine model run on the compiled program, with every oracle
+answer computed by the specification's own evaluator, produces exactly that tree.
+(`represents_compile` proves the hypothesis `Represents` of `core_refines_spec` for `compile ss`.) -/
+theorem core_refines_spec_total (ss : Stylesheet) (d : Doc) (hf : inFragment ss = true)
+    (fuel : Nat) (tr : List REv) (h : transform ss d fuel = some tr) :
+    ∃ n, Core.run (compile ss) (oracleOf ss d (layoutOf ss) (infoOf ss)) n (tmplFor ss d (layoutOf ss) none 0) (0, 1, 1)
+      = some tr := by
+  have hf' := hf
+  simp only [inFragment, Bool.and_eq_true, List.isEmpty_iff] at hf'
+  obtain ⟨⟨⟨⟨_, _⟩, hs⟩, hg⟩, _⟩ := hf'
+  exact core_refines_spec _ _ _ ss d (represents_compile ss d hf) hs hg (by simp [layoutOf]) fuel tr h
+
+open XalanModel.C01.CoreSpec in
+/-- the fragment test accepts `exSheet` (two rules: literal result element, apply-templates, text, value-of, if, for-each) -/
+example : inFragment exSheet = true := by
+  simp [inFragment, exSheet, layoutOf, modesL, modesI, fragL, fragI]
 
 end XalanModel.Props.C01
